@@ -1,5 +1,7 @@
 package sim
 
+import "io"
+
 // Tape is the single source of every choice in a run: workload, configuration, fault
 // placement, schedule and byte patterns.  A fresh run draws from a splitmix64 stream
 // seeded from the run seed and records every draw; a replay reads the recorded values
@@ -10,6 +12,9 @@ type Tape struct {
 	replay []uint32
 	isRep  bool
 	pos    int
+	// Log, when set, receives every drawn value at once (4 bytes, little endian, unbuffered)
+	// so that the tape of a run that kills its process can be recovered by the driver
+	Log io.Writer
 	// Limit, when >0, makes Choose return 0 after that many draws (step caps in shrinking)
 }
 
@@ -40,6 +45,9 @@ func (t *Tape) Choose(n int) int {
 	}
 	t.pos++
 	t.Rec = append(t.Rec, v)
+	if t.Log != nil {
+		t.Log.Write([]byte{byte(v), byte(v >> 8), byte(v >> 16), byte(v >> 24)})
+	}
 	return int(v)
 }
 
